@@ -440,16 +440,57 @@ func (f *Frame) enterLoop(li *loopInfo, cur *State, phiEntry map[*ssa.Phi]Val) *
 	st := cur.clone()
 	mods := f.loopMods(li)
 	if mods.all {
-		u.havocAll(st)
-	} else {
-		for _, c := range sortedKeys(mods.classes) {
-			u.havocClass(st, c)
+		// preserved: items preserved by every havoc-all callee in the loop
+		var keep []matcher
+		if len(mods.excepts) > 0 {
+			for k, it := range mods.excepts[0] {
+				_ = k
+				inAll := true
+				for _, other := range mods.excepts[1:] {
+					found := false
+					for _, o := range other {
+						if o == it {
+							found = true
+						}
+					}
+					if !found {
+						inAll = false
+					}
+				}
+				if inAll {
+					keep = append(keep, modMatchers(it, mods.exceptPkg[0])...)
+				}
+			}
 		}
+		// a preserved class that the loop body writes itself is still modified
+		u.havocAllExcept(st, keep)
+		var own []matcher
+		for _, c := range sortedKeys(mods.classes) {
+			own = append(own, matcher{exact: c})
+		}
+		own = append(own, mods.pats...)
+		u.havocOnly(st, own)
+	} else {
+		var own []matcher
+		for _, c := range sortedKeys(mods.classes) {
+			own = append(own, matcher{exact: c})
+		}
+		own = append(own, mods.pats...)
+		u.havocOnly(st, own)
 	}
 	for c := range st.cells {
 		if mods.allocs[c.Alloc] || mods.allCells {
 			st.cells[c] = u.defs.Fresh("lc_"+c.Name, c.Sort)
 			u.assume(st, typeFacts(st.cells[c], c.Ty))
+		}
+	}
+	for g := range mods.ghosts {
+		if _, has := st.ghost[g]; !has {
+			if gt, ok := u.eng.GlobalGhosts[g]; ok {
+				env := f.pointEnv(st, b, -1, nil)
+				srt, _ := env.resolveType(gt)
+				st.ghost[g] = u.ghostInit(g, srt)
+			}
 		}
 	}
 	for g := range st.ghost {
@@ -571,6 +612,14 @@ func (f *Frame) execBlock(b *ssa.BasicBlock, st *State, in map[*ssa.BasicBlock][
 			}
 			rst := st
 			f.runDefers(rst)
+			if f.top {
+				// reachability probe (informational): a return that cannot be reached under the assumed invariants
+				// usually means a contradictory invariant
+				vo := u.addObl(rst, "reach", fmt.Sprintf("return#%d", len(f.rets)+1), False, nil)
+				vo.ExpectFail = true
+				vo.Info = true
+				u.checkReturn(f, rst, vals)
+			}
 			f.rets = append(f.rets, retState{rst, vals})
 			return
 		case *ssa.Panic:
